@@ -363,12 +363,15 @@ def case_prec(order, nd, bc):
                 trivial=(obs is None or order == 0 or bc == "none"), impl_fail=fail, signature=sig if fail else "")
 
 
-def case_apply(order, nd, bc, x, y):
+def case_apply(order, nd, bc, x, y, half=False):
+    """half: the vectors handed to the implementation are x/2, y/2 (half-integers, exact in binary floating point);
+    the results are doubled (exactly) before the comparison with the integer model"""
     n, two_d, wf = nd_info(nd)
     op = build_fd(order, nd, bc, None)
-    Dx = op @ np.array(x, dtype=float)
-    DTy = op.T @ np.array(y, dtype=float)
-    meta = {"op": "apply", "order": order, "nodes": nd, "bc": bc, "x": x, "y": y}
+    sc = 0.5 if half else 1.0
+    Dx = (op @ (np.array(x, dtype=float) * sc)) / sc
+    DTy = (op.T @ (np.array(y, dtype=float) * sc)) / sc
+    meta = {"op": "apply", "order": order, "nodes": nd, "bc": bc, "x": x, "y": y, "half": half}
     a, b = int_rows(Dx), int_rows(DTy)
     expr = "false" if a is None or b is None else \
         "check_apply_st %s %s %s %s %s %s %s %s" % (cst(), cnat(order), cnodes(nd), cbc(bc), czvec(x), czvec(y), czvec(a), czvec(b))
@@ -391,7 +394,7 @@ def case_apply(order, nd, bc, x, y):
         elif not oky:
             fail = "<D x, y> != <x, D^T y> for x=%s y=%s" % (x, y)
         sig = "FiniteDifference.__matmul__|%s-order%d-%s" % ("2d" if two_d else "1d", order, bc)
-    return Case(expr=expr, meta=meta, cell="apply/fd%d/%s/%s" % (order, "2d" if two_d else "1d", bc),
+    return Case(expr=expr, meta=meta, cell="apply/fd%d/%s/%s%s" % (order, "2d" if two_d else "1d", bc, "/half-integers" if half else ""),
                 trivial=(bc == "none" or all(v == 0 for v in x)), impl_fail=fail, signature=sig if fail else "")
 
 
@@ -455,6 +458,109 @@ def case_keepalive(order, nd, bc, rng):
                 impl_fail="; ".join(changed) or None, signature="FiniteDifference|state-changed-by-use" if changed else "")
 
 
+def style_cases(rng):
+    """declaration styles, optional arguments left at their defaults, dtypes / memory layouts of the vectors, and
+    objects re-used after their parameters were re-assigned; every case is compared with the model through the same
+    checkers as the plain cells and with the independent stencils"""
+    import cuqi
+    from cuqi.operator import FirstOrderFiniteDifference, SecondOrderFiniteDifference, PrecisionFiniteDifference
+    from cuqi.distribution import GMRF, LMRF, CMRF
+    out = []
+
+    def fd_case(op, order, n, bc, style):
+        M = dense(op.get_matrix())
+        rows = int_rows(M)
+        fail, sig = oracle_matrix(order, bc, n, False, M)
+        return Case(expr="false" if rows is None else "check_fd_z_st %s %s %s %s (Some %s)" % (cst(), cnat(order), cnodes(n), cbc(bc), czmat(rows)),
+                    meta={"op": "style", "what": style, "order": order, "n": n, "bc": bc}, cell="style/" + style,
+                    impl_fail=fail, signature=("FiniteDifference|style:" + style) if fail else "")
+    # defaults: the operators default to periodic, the precision to periodic order 1
+    for n in (3, 6):
+        out.append(fd_case(FirstOrderFiniteDifference(n), 1, n, "periodic", "default-bc"))
+        out.append(fd_case(SecondOrderFiniteDifference(n), 2, n, "periodic", "default-bc"))
+        out.append(fd_case(FirstOrderFiniteDifference(n, "neumann"), 1, n, "neumann", "positional-bc"))
+        out.append(fd_case(SecondOrderFiniteDifference(n, "zero", None), 2, n, "zero", "positional-bc-dx"))
+        P = dense(PrecisionFiniteDifference(n).get_matrix())
+        out.append(Case(expr="check_prec_st %s 1%%nat %s Periodic (Some %s)" % (cst(), cnodes(n), czmat(int_rows(P))),
+                        meta={"op": "style", "what": "prec-defaults", "n": n}, cell="style/default-prec"))
+    # vectors: integer dtype, float32, strided and reversed views, Fortran-ordered image
+    for order, bc in ((1, "zero"), (1, "periodic"), (2, "neumann"), (1, "backward")):
+        n = 6
+        op = build_fd(order, n, bc, None)
+        base = np.array([rng.randint(-9, 9) for _ in range(2 * n)])
+        for style, x in (("int64", base[:n].astype(np.int64)), ("float32", base[:n].astype(np.float32)),
+                         ("strided", base.astype(float)[::2]), ("reversed-view", base[:n].astype(float)[::-1])):
+            xl = [int(v) for v in x]
+            Dx = np.asarray(op @ x, dtype=float)
+            ref = ref_apply_1d(order, bc, np.array(xl, dtype=float))
+            ok = np.array_equal(np.abs(ref), np.abs(Dx)) if bc == "backward" else np.array_equal(ref, Dx)
+            y = [0] * len(Dx)
+            out.append(Case(expr="check_apply_st %s %s %s %s %s %s %s %s" % (cst(), cnat(order), cnodes(n), cbc(bc), czvec(xl), czvec(y), czvec(int_rows(Dx)), czvec([0] * n)),
+                            meta={"op": "style", "what": "vector-" + style, "order": order, "bc": bc, "x": xl}, cell="style/vector-" + style,
+                            impl_fail=None if ok else "D @ x for a %s vector %s = %s, documented %s" % (style, xl, Dx.tolist(), ref.tolist()),
+                            signature="" if ok else "FiniteDifference.__matmul__|vector-" + style))
+    # priors: geometry given as an integer, defaults (zero BC, order 1), 1-element array precision, list mean,
+    # integer / strided evaluation points; then the SAME object after prec and mean were re-assigned
+    for dim in (5, 8):
+        x = [rng.randint(-6, 6) for _ in range(dim)]
+        m1 = [rng.randint(-3, 3) for _ in range(dim)]
+        m2 = [rng.randint(-3, 3) for _ in range(dim)]
+        g = quiet(GMRF, m1, np.array([3.0]), geometry=dim)                 # defaults: zero BC, order 1
+        ref = ref_matrix(1, "zero", dim)
+        Pref = ref.T @ ref
+
+        def quad_case(g, mean, prec, xs, style):
+            xa = np.array(xs)                                                # integer dtype on purpose
+            if style.endswith("strided"):
+                xa = np.array([v for v in xs for _ in (0, 1)], dtype=float)[::2]
+            v0 = float(np.ravel(g.logpdf(np.array(mean, dtype=float)))[0])
+            v = float(np.ravel(g.logpdf(xa))[0])
+            q_obs = -2.0 * (v - v0) / prec
+            d = np.array(xs, dtype=float) - np.array(mean, dtype=float)
+            q_ref = float(d @ (Pref @ d))
+            bad = abs(q_obs - q_ref) > 1e-9 * (1 + abs(q_ref))
+            return Case(expr="check_gmrf_quad_st %s 1%%nat %s Zero 1%%nat %s %s %s" % (cst(), cnat(dim), czvec(xs), czvec(mean), cq(q_obs)),
+                        meta={"op": "style", "what": style, "dim": dim, "x": xs, "mean": mean, "prec": prec}, cell="style/gmrf-" + style, kind="TOLERANCE",
+                        impl_fail=("GMRF (%s): quadratic form read off logpdf = %r, (x-mean)^T P (x-mean) = %r" % (style, q_obs, q_ref)) if bad else None,
+                        signature="GMRF.logpdf|style:" + style if bad else "")
+        out.append(quad_case(g, m1, 3.0, x, "defaults-int-geometry-array-prec-list-mean"))
+        out.append(quad_case(g, m1, 3.0, x, "int-x-strided"))
+        R1 = dense(g.sqrtprec)
+        g.prec = 0.75
+        g.mean = np.array(m2, dtype=float)
+        out.append(quad_case(g, m2, 0.75, x, "after-reassigning-prec-and-mean"))
+        R2 = dense(g.sqrtprec)
+        bad = np.abs(R2.T @ R2 - 0.75 * Pref).max() > 1e-9 or np.abs(R1.T @ R1 - 3.0 * Pref).max() > 1e-9
+        out.append(Case(expr="check_sqrtprec_st %s 1%%nat %s Zero 1%%nat %s %s" % (cst(), cnat(dim), cq(0.75), cqmat(R2.tolist())),
+                        meta={"op": "style", "what": "sqrtprec-after-reassigning-prec", "dim": dim}, cell="style/gmrf-sqrtprec-reassigned", kind="TOLERANCE",
+                        impl_fail="sqrtprec does not follow the re-assigned precision" if bad else None,
+                        signature="GMRF.sqrtprec|after-reassignment" if bad else ""))
+        # LMRF / CMRF: defaults (zero BC), integer geometry, location re-assigned, data 2^20 times larger
+        for kind, cls in (("lmrf", LMRF), ("cmrf", CMRF)):
+            dist = cls(0, 0.5, geometry=dim)
+            for style, loc, xs in (("defaults-int-geometry", [0] * dim, x), ("after-reassigning-location", m2, x),
+                                   ("magnitude-2^20", m2, [v * 2 ** 20 for v in x])):
+                if style != "defaults-int-geometry":
+                    dist.location = np.array(loc, dtype=float)
+                if kind == "cmrf" and style == "magnitude-2^20":
+                    continue
+                v0 = float(np.ravel(dist.logpdf(np.array(loc, dtype=float)))[0])
+                v = float(np.ravel(dist.logpdf(np.array(xs, dtype=float)))[0])
+                refd = ref_apply_1d(1, "zero", np.array(xs, dtype=float) - np.array(loc, dtype=float))
+                Drows = int_rows(dense(dist._diff_op.get_matrix()))
+                if kind == "lmrf":
+                    obs, expect = 0.5 * (v0 - v), float(np.sum(np.abs(refd)))
+                    expr = "check_lmrf_st %s 1%%nat %s Zero %s %s (Some %s) %s" % (cst(), cnat(dim), czvec(xs), czvec(loc), cq(obs), copt(Drows, czmat))
+                else:
+                    obs, expect = math.exp(v0 - v), float(np.prod(1.0 + (refd / 0.5) ** 2))
+                    expr = "check_cmrf_st %s 1%%nat %s Zero %s %s %s (Some %s) %s" % (cst(), cnat(dim), cq(0.5), czvec(xs), czvec(loc), cq(obs), copt(Drows, czmat))
+                bad = abs(obs - expect) > 1e-9 * (1 + abs(expect))
+                out.append(Case(expr=expr, meta={"op": "style", "what": kind + "-" + style, "dim": dim, "x": xs, "loc": loc}, cell="style/%s-%s" % (kind, style), kind="TOLERANCE",
+                                impl_fail=("%s (%s): data term %r, through the documented differences %r" % (kind.upper(), style, obs, expect)) if bad else None,
+                                signature=("%s.logpdf|style:%s" % (kind.upper(), style)) if bad else ""))
+    return out
+
+
 def gmrf_class_signature(pd, dim, bc, order):
     N = dim if pd == 1 else int(math.isqrt(dim))
     if order == 0 and bc in ("periodic", "neumann"):
@@ -480,7 +586,7 @@ def gmrf_cases(pd, dim, bc, order, rng, nvec=2, big=False, mdi=None):
         base["big"] = True
     args = "%s %s %s %s" % (cnat(pd), cnat(dim), cbc(bc), cnat(order))
     cell = "gmrf/%dd/o%d/%s%s%s" % (pd, order, bc if bc in BCS else "unknown", "/bigdim" if big else "", thr_cell)
-    prec = rng.choice([0.5, 1.0, 2.0, 4.0])
+    prec = rng.choice([0.5, 1.0, 2.0, 4.0, 3.0, 0.3])
     g, err = observe_gmrf(pd, dim, bc, order, prec=prec, big=big, mdi=mdi)
     # (a) refusal, coded rank, operators -- faithful model
     if g is None:
@@ -505,6 +611,11 @@ def gmrf_cases(pd, dim, bc, order, rng, nvec=2, big=False, mdi=None):
     if g is None:
         return out
     Pd = dense(g._prec_op.get_matrix())
+    # the reference precision of the oracles below is built from the independent stencils, not read from the object
+    # (the object's own matrix was compared with it in (a)); only where no documented operator exists it is the object's
+    _ref = ref_matrix(1 if order == 0 else order, "none" if order == 0 else bc, N, pd == 2) if (order in (0, 1, 2) and (pd == 1 or N * N == dim)) else None
+    if _ref is not None and (acc_state() or not small_n_periodic(order, bc, N)) and _ref.shape[1] == dim:
+        Pd = _ref.T @ _ref
     if mdi is not None:
         # DECISION: which branch computed the log-determinant (the spectrum is stored only by the exact branch)
         took_regularised = bc in ("periodic", "neumann") and not hasattr(g, "_L_eigval")
@@ -540,13 +651,10 @@ def gmrf_cases(pd, dim, bc, order, rng, nvec=2, big=False, mdi=None):
     elif fail and not big and int(g._rank) == true_rank:
         sig = SIG_RANK_OTHER      # right rank, wrong log-determinant outside the regularised branch: not one of the rank classes
     e_obs = math.exp(logdet) if finite and logdet < 600 else 0.0
-    expr = "check_true_rank_st %s %s %s && check_true_expdet_st %s %s %s" % (cst(), args, cnat(int(g._rank)), cst(), args, cq(e_obs))
-    if repair_state()[1] and order == 2 and bc == "neumann":
-        # repaired rank rule: nullity 2 (2-d: 4); the model's exact pseudo-determinant covers nullity <= 1 only, the
-        # log-determinant of this class is then checked by the eigenvalue oracle above alone
-        expr = "check_true_rank_st %s %s %s" % (cst(), args, cnat(int(g._rank)))
+    # the model's pseudo-determinant is exact for every nullity (characteristic-polynomial coefficient over Z)
+    expr = "check_true_rank_st %s %s %s && check_true_expdet_any %s %s %s" % (cst(), args, cnat(int(g._rank)), cst(), args, cq(e_obs))
     out.append(Case(expr=expr, meta=dict(base, op="gmrf_rank_logdet", prec=prec,
-                                         coq_model="option_map (fun g => (zrank %s (g_prec g), zdet (g_prec g), pdet1 (g_prec g))) (gmrf_init %s)" % (cnat(dim), args)),
+                                         coq_model="option_map (fun g => (zrank %s (g_prec g), zpdet %s (g_prec g) (%s - zrank %s (g_prec g)))) (gmrf_init_gen (fdm_of %s) false %s)" % (cnat(dim), cnat(dim), cnat(dim), cnat(dim), cst(), args)),
                     cell=cell + "/rank-logdet", kind="TOLERANCE", impl_fail=fail, signature=sig))
     # (d) faithful exp(logdet) where the model describes the code's value
     if big and bc in ("periodic", "neumann"):
@@ -555,8 +663,14 @@ def gmrf_cases(pd, dim, bc, order, rng, nvec=2, big=False, mdi=None):
         out.append(Case(expr="check_expdet_reg %s %s" % (args, cq(e_reg)),
                         meta=dict(base, op="gmrf_expdet_coded", prec=prec, coq_model="gmrf_expdet_reg %s" % args),
                         cell=cell + "/logdet-coded", kind="TOLERANCE"))
-    elif not (order == 2 and (bc == "neumann" or (bc == "periodic" and N <= 2))) and \
-            not (repair_state()[1] and order == 0 and bc in ("periodic", "neumann")):
+    elif repair_state()[1]:
+        # repaired rank rule: the coded value is the product of the eigenvalues left after dropping `nullity` of them
+        out.append(Case(expr="check_expdet_repaired %s %s %s" % (cst(), args, cq(e_obs)),
+                        meta=dict(base, op="gmrf_expdet_coded", prec=prec,
+                                  coq_model="option_map (fun g => (g_rank g, zrank %s (g_prec g), zpdet %s (g_prec g) (%s - g_rank g))) (gmrf_init_gen (fdm_of %s) true %s)" % (
+                                      cnat(dim), cnat(dim), cnat(dim), cst(), args)),
+                        cell=cell + "/logdet-coded", kind="TOLERANCE"))
+    elif not (order == 2 and (bc == "neumann" or (bc == "periodic" and N <= 2))):
         expr = "check_expdet %s %s" % (args, cq(e_obs))
         out.append(Case(expr=expr, meta=dict(base, op="gmrf_expdet_coded", prec=prec, coq_model="gmrf_expdet %s" % args),
                         cell=cell + "/logdet-coded", kind="TOLERANCE"))
@@ -573,11 +687,16 @@ def gmrf_cases(pd, dim, bc, order, rng, nvec=2, big=False, mdi=None):
         gm, _ = observe_gmrf(pd, dim, bc, order, prec=prec, mean=np.array(mean, dtype=float) if len(mean) > 1 else float(mean[0]), big=big, mdi=mdi)
         mvec = np.array(mean * dim if len(mean) == 1 else mean, dtype=float)
         v0 = float(np.ravel(gm.logpdf(mvec))[0])
-        v = float(np.ravel(gm.logpdf(np.array(x, dtype=float)))[0])
+        xeval = np.array(x, dtype=float)
+        half = (k == 1)
+        if half:
+            # evaluate at the half-way point (x + mean)/2 (half-integers): the quadratic form is exactly a quarter
+            xeval = (np.array(x, dtype=float) + mvec) / 2.0
+        v = float(np.ravel(gm.logpdf(xeval))[0])
         d = np.array(x, dtype=float) - mvec
         fail = None
         if math.isfinite(v0) and math.isfinite(v):
-            q_obs = -2.0 * (v - v0) / prec
+            q_obs = -2.0 * (v - v0) / prec * (4.0 if half else 1.0)
             q_ref = float(d @ (Pd @ d))
             if abs(q_obs - q_ref) > 1e-9 * (1 + abs(q_ref)):
                 fail = "GMRF.logpdf: -2(logpdf(x)-logpdf(mean))/prec = %r, (x-mean)^T P (x-mean) = %r" % (q_obs, q_ref)
@@ -632,6 +751,16 @@ def mrf_case_from(kind, pd, dim, bc, scale, x, loc):
     if kind == "lmrf":
         obs = scale * (v0 - v)
         expect = float(np.sum(np.abs(ref)))
+        # the second evaluation path of LMRF (pdf) and a half-integer point must give the same data term
+        try:
+            p0, p1 = float(np.ravel(dist.pdf(lvec))[0]), float(np.ravel(dist.pdf(np.array(x, dtype=float)))[0])
+            vh = float(np.ravel(dist.logpdf((np.array(x, dtype=float) + lvec) / 2.0))[0])
+            if p0 > 0 and p1 > 0 and abs(-scale * math.log(p1 / p0) - expect) > 1e-7 * (1 + abs(expect)):
+                fail, sig = "LMRF.pdf: data term %r, through the documented differences %r" % (-scale * math.log(p1 / p0), expect), "LMRF.pdf|through-operator"
+            elif abs(2.0 * scale * (v0 - vh) - expect) > 1e-9 * (1 + abs(expect)):
+                fail, sig = "LMRF.logpdf at the half-integer point (x+location)/2: data term %r, expected %r / 2" % (scale * (v0 - vh), expect), "LMRF.logpdf|half-integer-point"
+        except Exception as e:
+            fail, sig = "LMRF.pdf raised %s" % type(e).__name__, "LMRF.pdf|through-operator"
         expr = "check_lmrf_st %s %s %s %s (Some %s) %s" % (cst(), args, czvec(x), czvec(loc), cq(obs), copt(Drows, czmat))
         meta["coq_model"] = "lmrf_l1 %s %s %s" % (args, czvec(x), czvec(loc))
     else:
@@ -647,7 +776,7 @@ def mrf_case_from(kind, pd, dim, bc, scale, x, loc):
         if abs(v0 - len(ref) * per) > 1e-9 * (1 + abs(len(ref) * per)):
             fail = "%s.logpdf(location) = %r, but %d differences x %r = %r" % (kind.upper(), v0, len(ref), per, len(ref) * per)
             sig = "%s.logpdf|number-of-differences" % kind.upper()
-    if not small_n_periodic(1, bc, N):
+    if not fail and not small_n_periodic(1, bc, N):
         if abs(obs - expect) > 1e-9 * (1 + abs(expect)):
             fail = "%s.logpdf (%s, dim %d, %d-d): data term read off logpdf = %r, through the documented differences of x - location = %r" % (
                 kind.upper(), bc, dim, pd, obs, expect)
@@ -758,6 +887,8 @@ def run(ctx):
                             x = [rng.randint(-20, 20) for _ in range(dim)]
                         y = [rng.randint(-20, 20) for _ in range(rows)]
                         cases.append(case_apply(order, nd, bc, x, y))
+                        if k == 1:
+                            cases.append(case_apply(order, nd, bc, [2 * v + 1 for v in x], [2 * v + 1 for v in y], half=True))
     # ---- 7. GMRF ------------------------------------------------------------------------------------------
     for order in (0, 1, 2, 3):
         for bc in ["zero", "periodic", "neumann", "backward", "none", "foo"]:
@@ -786,6 +917,8 @@ def run(ctx):
             for pd, dim in [(1, 6), (2, 9)] + ([(1, 16), (2, 16)] if ctx.thorough else []):
                 for mdi in (dim - 1, dim, dim + 1):
                     cases += gmrf_cases(pd, dim, bc, order, rng, nvec=1, mdi=mdi)
+    # ---- 7d. declaration styles, defaults, dtypes / layouts, re-assigned parameters --------------------------------
+    cases += style_cases(rng)
     # ---- 8. LMRF / CMRF -----------------------------------------------------------------------------------
     for kind in ("lmrf", "cmrf"):
         for bc in allbc:
@@ -813,11 +946,14 @@ def rebuild(meta, rng=None):
         return [case_fd(meta["order"], meta["nodes"], meta["bc"], dx=dx)]
     if op == "prec":
         return [case_prec(meta["order"], meta["nodes"], meta["bc"])]
+    if op == "style":
+        import random as _r
+        return [c for c in style_cases(_r.Random(0)) if c.meta.get("what") == meta.get("what")]
     if op == "keepalive":
         import random as _r
         return [case_keepalive(meta["order"], meta["nodes"], meta["bc"], _r.Random(0))]
     if op == "apply":
-        return [case_apply(meta["order"], meta["nodes"], meta["bc"], meta["x"], meta["y"])]
+        return [case_apply(meta["order"], meta["nodes"], meta["bc"], meta["x"], meta["y"], half=bool(meta.get("half")))]
     if op and op.startswith("gmrf"):
         cs = gmrf_cases(meta["pd"], meta["dim"], meta["bc"], meta["order"], random.Random(0), nvec=2,
                         big=bool(meta.get("big")) and meta.get("mdi") is None, mdi=meta.get("mdi"))
